@@ -199,13 +199,20 @@ def _build(cfg):
         # construction route (deterministic in the configuration): fresh | built elsewhere, used, then the centre
         # object modified in place | built with other sizes, used, then sizes and centre re-assigned
         import zlib
-        route = zlib.crc32(repr(sorted((k, cfg[k]) for k in ('shape', 'r', 'rx', 'ry', 'theta', 'phase') if k in cfg)).encode()) % 6
+        route0 = zlib.crc32(repr(sorted((k, cfg[k]) for k in ('shape', 'r', 'rx', 'ry', 'theta', 'phase') if k in cfg)).encode())
+        route = route0 % 6
         c0 = PixCoord(cx, cy) if route > 1 else PixCoord(cx + 3.25, cy - 1.5)
         f = 1.0 if route != 1 else 1.75
         if s == 'circle':
             reg = CirclePixelRegion(c0, cfg['r'] * f)
         else:
-            reg = EllipsePixelRegion(c0, 2.0 * cfg['rx'] * f, 2.0 * cfg['ry'] * f, angle=math.degrees(cfg['theta']) * u.deg)
+            # the angle is handed over in degrees, radians, arcminutes or arcseconds (by configuration hash);
+            # the conversion from radians costs at most a few ulp, far below the 1e-8 tolerance
+            ang = [math.degrees(cfg['theta']) * u.deg, cfg['theta'] * u.rad, (math.degrees(cfg['theta']) * 60.0) * u.arcmin,
+                   (math.degrees(cfg['theta']) * 3600.0) * u.arcsec][(route0 // 6) % 4 if cfg.get('ptype') == 'generic' else 0]
+            # ('nice' phases keep degrees: the listed kernel defects sit exactly on pixel corners/edges and move with
+            # every ulp of theta, so the known-finding inputs must be reproduced bit for bit)
+            reg = EllipsePixelRegion(c0, 2.0 * cfg['rx'] * f, 2.0 * cfg['ry'] * f, angle=ang)
         if route <= 1 and max(cfg.get('r', 0), cfg.get('rx', 0), cfg.get('ry', 0)) <= 64.0:
             reg.bounding_box
             reg.to_mask('center')
